@@ -293,6 +293,20 @@ func c09d(c *Ctx) {
 		}
 		pv, ok1 := r.Results[0].(*ssa.Phi)
 		pt, ok2 := r.Results[1].(*ssa.Phi)
+		if !ok1 && !ok2 {
+			// one lookup each, under the same (chosen) key value
+			kv, kt := lookupKey(c, fn, r.Results[0]), lookupKey(c, fn, r.Results[1])
+			var lv, lt *ssa.Lookup
+			if x, ok := unExtract(r.Results[0]).(*ssa.Lookup); ok {
+				lv = x
+			}
+			if x, ok := unExtract(r.Results[1]).(*ssa.Lookup); ok {
+				lt = x
+			}
+			same := lv != nil && lt != nil && lv.Index == lt.Index && kv != "" && kv == kt
+			c.Check(same, "text-poryswitch/parallel-maps", c.W.Pos(r.Pos()), "text and string type are read under the same key on every path", fmt.Sprintf("the text is read under key %s but the string type under key %s", pretty(kv), pretty(kt)))
+			continue
+		}
 		if !ok1 || !ok2 || len(pv.Edges) != len(pt.Edges) || pv.Block() != pt.Block() {
 			c.Bad("text-poryswitch/parallel-maps", c.W.Pos(r.Pos()), "returned text and string type are not merged from matching lookups")
 			continue
@@ -977,4 +991,11 @@ func stripLit(d dnf, l string) (dnf, bool) {
 	}
 	out.cs = simplify(out.cs)
 	return out, true
+}
+
+func unExtract(v ssa.Value) ssa.Value {
+	if ex, ok := v.(*ssa.Extract); ok {
+		return ex.Tuple
+	}
+	return v
 }
